@@ -437,4 +437,413 @@ theorem pickAgg_ti {π : TPar} {A : Nat} {Hn : Int} {kw J : Nat} {st : St σ} (h
 
 end
 
+
+/-! ### the queue branch -/
+
+section
+variable {σ : Type}
+
+theorem NetI.agg_le {π : TPar} {kw J : Nat} {net : Bottleneck} (h : NetI π kw J net) (c : Bool) : net.agg c ≤ J := by
+  unfold Bottleneck.agg
+  cases c
+  · have := h.aggS; simp only [Bool.false_eq_true, if_false]; omega
+  · have := h.aggC; simp only [if_true]; omega
+
+theorem PI.withNet {π : TPar} {A : Nat} {Hn : Int} {kw J kw' J' : Nat} {st : St σ} (h : PI π A Hn kw J st)
+    {net' : Bottleneck} (hn : NetI π kw' J' net') : PI π A Hn kw' J' { st with net := net' } :=
+  ⟨h.t0le, h.nowle, h.wf, h.ord, h.q, h.sides, hn⟩
+
+theorem PI.setSide {π : TPar} {A : Nat} {Hn : Int} {kw J : Nat} {st : St σ} (h : PI π A Hn kw J st)
+    (c : Bool) (x : Side σ) (hx : SlotI st.now x) : PI π A Hn kw J (st.setSide c x) := by
+  cases c with
+  | true =>
+    exact ⟨h.t0le, h.nowle, h.wf, h.ord, h.q, fun c' => by
+      cases c'
+      · exact h.sides false
+      · exact hx, h.net⟩
+  | false =>
+    exact ⟨h.t0le, h.nowle, h.wf, h.ord, h.q, fun c' => by
+      cases c'
+      · exact hx
+      · exact h.sides true, h.net⟩
+
+/-- the queue branch: the pop succeeds, the invariant is kept, the served event is within the
+    horizon, and while a TunnelSent stays queued it is at most `W` after the clock -/
+theorem pickQueue_ti {π : TPar} {A : Nat} {Hn : Int} {kw J : Nat} {st : St σ} (h : PI π A Hn kw J st)
+    {q : Nat} {qid : Queue} {c : Bool} (hd : pickDecide st = .ok (.queue q qid c))
+    (hJM : J ≤ π.JM) (hHb : π.Tm + π.JM ≤ Hn) :
+    (∀ f, pickQueue st q qid c = .error f → f.isBug = true) ∧
+    (∀ e st', pickQueue st q qid c = .ok (e, st') →
+      PI π A Hn kw J st' ∧ SameFw st st' ∧ st'.now = st.now ∧
+      e.time ≤ Hn + ((π.S + TB.W : Nat) : Int) ∧ (st'.sq.hasBlocked → e.time ≤ st.now + (TB.W : Int))) := by
+  obtain ⟨⟨earliest, hpq⟩, hlt⟩ := pickDecide_queue hd
+  have hqlt := pickDecide_queue_lt hd
+  obtain ⟨hd0, hhd0⟩ := peekQueue_heap h.wf hpq hqlt
+  obtain ⟨e0, sq0, hpop⟩ := SimQueue.pop_someG (st.net.agg c) hhd0
+  constructor
+  · intro f hf
+    unfold pickQueue at hf
+    rw [hpop] at hf
+    simp [bind, Except.bind, pure, Except.pure] at hf
+  · intro e st' hp
+    obtain ⟨tmp, htmp, het⟩ := pickQueue_offset_ge h.wf hd hp
+    have hwf' := (pickQueue_conserve h.wf hp).1
+    have hetq : e.time ≤ st.now + (q : Int) := by
+      unfold dsince durSince at htmp
+      split at het <;> omega
+    unfold pickQueue at hp
+    rw [hpop] at hp
+    simp only [bind, Except.bind, pure, Except.pure, Except.ok.injEq, Prod.mk.injEq] at hp
+    obtain ⟨_, hst'⟩ := hp
+    subst hst'
+    have hpi : PI π A Hn kw J ({ st with sq := sq0, net := if st.now + (q : Int) > e0.time then
+        { st.net with ghost := { st.net.ghost with movedByBlocking := st.net.ghost.movedByBlocking + 1 } } else st.net } : St σ) := by
+      refine ⟨h.t0le, h.nowle, hwf', (SimQueue.pop_specG hpop).2.1 h.ord, h.q.pop hpop, h.sides, ?_⟩
+      show NetI π kw J (if st.now + (q : Int) > e0.time then _ else st.net)
+      split
+      · exact h.net.ghost _
+      · exact h.net
+    refine ⟨hpi, fun c' => ⟨rfl, rfl, rfl⟩, rfl, ?_⟩
+    have hnn : st.now ≤ Hn + ((π.S + TB.W : Nat) : Int) := by have := h.nowle; omega
+    cases hcu : st.client.blockingUntil with
+    | some u =>
+      have hu := (h.sides true).untl u hcu
+      have h1 := peekBlockedExp_le_side st.client.blockingUntil st.server.blockingUntil st.now true u (by simp [hcu])
+      have h2 := dsince_le_of_le hu
+      have := h.nowle
+      constructor
+      · push_cast; omega
+      · intro _; omega
+    | none =>
+      cases hsu : st.server.blockingUntil with
+      | some u =>
+        have hu := (h.sides false).untl u hsu
+        have h1 := peekBlockedExp_le_side st.client.blockingUntil st.server.blockingUntil st.now false u (by simp [hsu])
+        have h2 := dsince_le_of_le hu
+        have := h.nowle
+        constructor
+        · push_cast; omega
+        · intro _; omega
+      | none =>
+        rcases peekQueue_noblock hcu hsu hpq with hmax | ⟨pk, hpk⟩
+        · omega
+        · have hdur := SimQueue.peek_dur h.wf hpk
+          have hmem : pk ∈ ((st.sq.side pk.client).heap qid).data := Heap.peek_mem (SimQueue.peek_heap h.wf hpk)
+          have hqp := h.q pk.client qid pk hmem
+          have hagg : (if pk.client then st.net.clientAgg else st.net.serverAgg) ≤ J := by
+            have := h.net.agg_le pk.client
+            unfold Bottleneck.agg at this
+            exact this
+          have hx : pk.time + qShift qid (if pk.client then st.net.clientAgg else st.net.serverAgg) ≤
+              Hn + ((π.S + TB.W : Nat) : Int) := by
+            have := h.nowle
+            cases qid <;> simp only [qpred, qShift, if_true, reduceCtorEq, if_false] at hqp ⊢ <;> push_cast <;> omega
+          have hb := dsince_add_le hx hnn
+          rw [← hdur] at hb
+          constructor
+          · omega
+          · intro hbk
+            obtain ⟨c1, q1, e1, hq1, he1⟩ := SimQueue.hasBlocked_of_pop hpop hbk
+            have hqp1 := h.q c1 q1 e1 he1
+            have ht1 : e1.time ≤ st.now := by
+              rcases hq1 with hq1 | hq1 <;> subst hq1 <;> exact hqp1.1
+            have hne : q1 ≠ .base := by rcases hq1 with hq1 | hq1 <;> subst hq1 <;> simp
+            have := SimQueue.peek_zero h.ord hne he1 ht1 hpk
+            omega
+
+end
+
+
+/-! ### the blocking-expiry branch -/
+
+section
+variable {σ : Type}
+
+theorem peekBlockedExp_some {cu su : Option Int} {now : Int} {b : Nat} {c : Bool}
+    (h : peekBlockedExp cu su now = (b, c)) (hb : b < durMax) : (if c then cu else su).isSome := by
+  unfold peekBlockedExp at h
+  cases cu with
+  | none =>
+    cases su with
+    | none => simp only [Prod.mk.injEq] at h; omega
+    | some s => simp only [Prod.mk.injEq] at h; obtain ⟨_, hc⟩ := h; subst hc; simp
+  | some cc =>
+    cases su with
+    | none => simp only [Prod.mk.injEq] at h; obtain ⟨_, hc⟩ := h; subst hc; simp
+    | some s =>
+      simp only [] at h
+      split at h <;> (simp only [Prod.mk.injEq] at h; obtain ⟨_, hc⟩ := h; subst hc; simp)
+
+theorem foldl_tail_ge (p : SimEvent → Int → Bool) : ∀ (l : List SimEvent) (t : Int),
+    t ≤ l.foldl (fun tail e => if p e tail && e.time > tail then e.time else tail) t := by
+  intro l
+  induction l with
+  | nil => intro t; exact Int.le_refl _
+  | cons x xs ih =>
+    intro t
+    simp only [List.foldl_cons]
+    refine Int.le_trans ?_ (ih _)
+    split
+    · rename_i hc
+      simp only [Bool.and_eq_true, decide_eq_true_eq] at hc
+      omega
+    · exact Int.le_refl _
+
+theorem dsince_anti {a b c : Int} (h : b ≤ c) : dsince a c ≤ dsince a b := by
+  unfold dsince durSince
+  have : (a - c).toNat ≤ (a - b).toNat := Int.toNat_le_toNat (by omega)
+  omega
+
+/-- the aggregate delay queued at a blocking expiry is at most the time the head waited -/
+theorem aggDelayOnBlockingExpire_le {sq : SimQueue} {c : Bool} {expire : Int} {head : SimEvent} {ab bd : Nat}
+    (h : aggDelayOnBlockingExpire sq c expire head ab = some bd) : bd ≤ dsince expire head.time := by
+  unfold aggDelayOnBlockingExpire at h
+  simp only [] at h
+  generalize htl : (if (sq.side c).blocking.len + (sq.side c).bypassable.len > Gen.SIM_EXPIRE_BUFFER_MIN then
+      ((sq.side c).blocking.toList ++ (sq.side c).bypassable.toList).foldl
+        (fun tail e => if dsince e.time head.time ≤ Gen.SIM_EXPIRE_BUFFER_WINDOW_NS && e.time > tail then e.time else tail)
+        head.time
+    else head.time) = tail at h
+  have hge : head.time ≤ tail := by
+    rw [← htl]
+    split
+    · exact foldl_tail_ge (fun e _ => decide (dsince e.time head.time ≤ Gen.SIM_EXPIRE_BUFFER_WINDOW_NS)) _ _
+    · exact Int.le_refl _
+  have hres : bd = dsince expire tail := by
+    split at h
+    · cases h
+    · split at h
+      · split at h
+        · cases h
+        · cases h; rfl
+      · cases h; rfl
+  rw [hres]
+  exact dsince_anti hge
+
+theorem peekBlocking_blocked (sq : SimQueue) (byp c : Bool) :
+    (sq.peekBlocking byp c).2 = .blocking ∨ (sq.peekBlocking byp c).2 = .bypassable := by
+  unfold SimQueue.peekBlocking EventQueue.peekBlockingSide
+  cases byp
+  · simp only [Bool.false_eq_true, if_false]
+    split
+    · exact Or.inl rfl
+    · exact Or.inr rfl
+  · exact Or.inl rfl
+
+/-- the head `peek_blocking` reports is queued in one of the blocked heaps -/
+theorem peekBlocking_mem {sq : SimQueue} {byp c : Bool} {ev : SimEvent} (h : (sq.peekBlocking byp c).1 = some ev) :
+    ∃ qi, (qi = Queue.blocking ∨ qi = Queue.bypassable) ∧ ev ∈ ((sq.side c).heap qi).data ∧
+      ((sq.side c).heap qi).peek = some ev ∧ qi = (sq.peekBlocking byp c).2 := by
+  have hh := peekBlocking_head sq byp c
+  rw [h] at hh
+  exact ⟨_, peekBlocking_blocked sq byp c, Heap.peek_mem hh.symm, hh.symm, rfl⟩
+
+/-- the aggregate delay, if any, queued at a blocking expiry is bounded and does not overflow -/
+theorem blockExpNet_ti {π : TPar} {A kw J : Nat} {sq : SimQueue} {net : Bottleneck} {now : Int}
+    (hq : sq.AllQ (qpred π A now)) (hn : NetI π kw J net) (hok : π.OK) (c : Bool) {b : Nat} (hb : b ≤ TB.W)
+    (hAD : A + TB.W ≤ π.D) :
+    ∃ net', blockExpNet sq net c (now + (b : Int)) = .ok net' ∧ NetI π kw (J + π.D) net' := by
+  unfold blockExpNet
+  cases hpb : (sq.peekBlocking false c).1 with
+  | none => exact ⟨net, rfl, hn.mono (Nat.le_add_right _ _)⟩
+  | some ev =>
+    simp only []
+    split
+    · cases had : aggDelayOnBlockingExpire sq c (now + (b : Int)) ev (net.agg c) with
+      | none => exact ⟨net, rfl, hn.mono (Nat.le_add_right _ _)⟩
+      | some bd =>
+        simp only []
+        obtain ⟨qi, hqi, hmem, _, _⟩ := peekBlocking_mem hpb
+        have hqp := hq c qi ev hmem
+        have hage : now ≤ ev.time + (A : Int) := by
+          rcases hqi with hqi | hqi <;> subst hqi <;> exact hqp.2
+        have hbd := aggDelayOnBlockingExpire_le had
+        have : dsince (now + (b : Int)) ev.time ≤ A + b := by
+          unfold dsince durSince
+          have : (now + (b : Int) - ev.time).toNat ≤ A + b := by omega
+          omega
+        exact pushAggregateDelay_ti hn hok (by omega) _ _
+    · exact ⟨net, rfl, hn.mono (Nat.le_add_right _ _)⟩
+
+/-- the blocking-expiry branch: no overflow, the invariant is kept with one more unit of the
+    aggregate-delay budget, the BlockingEnd event is at most `W` after the clock -/
+theorem pickBlockExp_ti {π : TPar} {A : Nat} {Hn : Int} {kw J : Nat} {st : St σ} (h : PI π A Hn kw J st)
+    (hok : π.OK) {b : Nat} {c : Bool} (hd : pickDecide st = .ok (.blockExp b c)) (hAD : A + TB.W ≤ π.D) :
+    (∀ f, pickBlockExp st b c = .error f → f.isBug = true) ∧
+    (∀ e st', pickBlockExp st b c = .ok (e, st') →
+      PI π A Hn kw (J + π.D) st' ∧ SameFw st st' ∧ st'.now = st.now ∧ st'.sq = st.sq ∧
+      e.time ≤ st.now + (TB.W : Int)) := by
+  have hpk := pickDecide_blockExp hd
+  have hblt := pickDecide_blockExp_lt hd
+  have hside : (if c then st.client.blockingUntil else st.server.blockingUntil) = (st.side c).blockingUntil := by
+    cases c <;> simp [St.side]
+  obtain ⟨u, hu, hbu⟩ := peekBlockedExp_spec _ _ _ _ _ hpk (peekBlockedExp_some hpk hblt)
+  rw [hside] at hu
+  have huw := (h.sides c).untl u hu
+  have hbW : b ≤ TB.W := by rw [hbu]; exact dsince_le_of_le huw
+  obtain ⟨net', hnet', hn'⟩ := blockExpNet_ti h.q h.net hok c hbW hAD
+  unfold pickBlockExp
+  rw [hnet']
+  simp only [bind, Except.bind, pure, Except.pure]
+  refine ⟨fun f hf => (by cases hf), fun e st' hs => ?_⟩
+  simp only [Except.ok.injEq, Prod.mk.injEq] at hs
+  obtain ⟨he, hst⟩ := hs
+  subst he; subst hst
+  have hx : SlotI st.now ({ (st.side c) with blockingUntil := none } : Side σ) :=
+    ⟨(h.sides c).acts, (h.sides c).tims, fun u hu => by cases hu⟩
+  have hp2 := (h.setSide c _ hx).withNet hn'
+  refine ⟨hp2, ?_, by simp, by simp, ?_⟩
+  · intro c'
+    cases c <;> cases c' <;> exact ⟨rfl, rfl, rfl⟩
+  · show st.now + (b : Int) ≤ st.now + (TB.W : Int)
+    omega
+
+end
+
+
+/-! ### the internal-timer and scheduled-action branches -/
+
+section
+variable {σ : Type}
+
+theorem PI.pushSim {π : TPar} {A : Nat} {Hn : Int} {kw J : Nat} {st : St σ} (h : PI π A Hn kw J st)
+    (ev : SimEvent) (hq : qpred π A st.now ev.client (route ev) ev) :
+    PI π A Hn kw J { st with sq := st.sq.pushSim ev } :=
+  ⟨h.t0le, h.nowle, (pushSim_spec st.sq ev h.wf).1, SimQueue.pushSim_ord ev h.ord, h.q.pushSim hq, h.sides, h.net⟩
+
+theorem SameFw.setSide (st : St σ) (c : Bool) (x : Side σ) (hfw : x.fw = (st.side c).fw)
+    (ha : x.schedAction.length = (st.side c).schedAction.length)
+    (ht : x.schedTimer.length = (st.side c).schedTimer.length) : SameFw st (st.setSide c x) := by
+  intro c'
+  cases c <;> cases c' <;> first | exact ⟨rfl, rfl, rfl⟩ | exact ⟨hfw, ha, ht⟩
+
+theorem S_ge_TD (π : TPar) : TB.TD ≤ π.S := by unfold TPar.S; omega
+theorem S_ge_TO (π : TPar) : TB.TO ≤ π.S := by unfold TPar.S; omega
+
+/-- the internal-timer branch only moves a due timer into the queue -/
+theorem pickTimer_ti {π : TPar} {A : Nat} {Hn : Int} {kw J : Nat} {st : St σ} (h : PI π A Hn kw J st) {i : Nat} :
+    (∀ f, pickTimer st i = .error f → f.isBug = true) ∧
+    (∀ st', pickTimer st i = .ok st' → PI π A Hn kw J st' ∧ SameFw st st' ∧ st'.now = st.now) := by
+  have hS := S_ge_TD π
+  unfold pickTimer doInternalTimer
+  cases hfc : findSlot (fun t => t == st.now + (i : Int)) st.client.schedTimer 0 with
+  | some pr =>
+    obtain ⟨id, t⟩ := pr
+    simp only [bind, Except.bind, pure, Except.pure]
+    refine ⟨fun f hf => (by cases hf), fun st' hs => ?_⟩
+    cases hs
+    obtain ⟨k, hk, hl⟩ := findSlot_spec _ _ _ _ _ hfc
+    have hp := findSlot_sat _ _ _ _ _ hfc
+    have hteq : t = st.now + (i : Int) := by simpa using hp
+    have htb := (h.sides true).tims t (List.mem_of_getElem? hl)
+    have hx : SlotI st.now ({ st.client with schedTimer := st.client.schedTimer.set id none } : Side σ) :=
+      ⟨(h.sides true).acts, fun t' ht' => (h.sides true).tims t' (mem_set_none ht'), (h.sides true).untl⟩
+    have hp2 := (h.setSide true _ hx).pushSim ⟨.timerEnd id, st.now + (i : Int), true, false, false, false⟩
+      (by show (st.now + (i : Int)) ≤ st.now + (π.S : Int); omega)
+    refine ⟨hp2, ?_, rfl⟩
+    exact SameFw.setSide st true _ rfl rfl (by simp [St.side])
+  | none =>
+    simp only []
+    cases hfs : findSlot (fun t => t == st.now + (i : Int)) st.server.schedTimer 0 with
+    | some pr =>
+      obtain ⟨id, t⟩ := pr
+      simp only [bind, Except.bind, pure, Except.pure]
+      refine ⟨fun f hf => (by cases hf), fun st' hs => ?_⟩
+      cases hs
+      obtain ⟨k, hk, hl⟩ := findSlot_spec _ _ _ _ _ hfs
+      have hp := findSlot_sat _ _ _ _ _ hfs
+      have hteq : t = st.now + (i : Int) := by simpa using hp
+      have htb := (h.sides false).tims t (List.mem_of_getElem? hl)
+      have hx : SlotI st.now ({ st.server with schedTimer := st.server.schedTimer.set id none } : Side σ) :=
+        ⟨(h.sides false).acts, fun t' ht' => (h.sides false).tims t' (mem_set_none ht'), (h.sides false).untl⟩
+      have hp2 := (h.setSide false _ hx).pushSim ⟨.timerEnd id, st.now + (i : Int), false, false, false, false⟩
+        (by show (st.now + (i : Int)) ≤ st.now + (π.S : Int); omega)
+      refine ⟨hp2, ?_, rfl⟩
+      exact SameFw.setSide st false _ rfl rfl (by simp [St.side])
+    | none =>
+      simp only [bind, Except.bind]
+      exact ⟨fun f hf => (by cases hf; rfl), fun st' hs => (by cases hs)⟩
+
+theorem findAction_mem {st : St σ} {target : Int} {c : Bool} {i : Nat} {a : SchedAction}
+    (h : findAction st target = some (c, i, a)) : some a ∈ (st.side c).schedAction := by
+  unfold findAction at h
+  split at h
+  · rename_i j b hfs
+    cases h
+    obtain ⟨k, hk, hl⟩ := findSlot_spec _ _ _ _ _ hfs
+    exact List.mem_of_getElem? (by simpa [St.side] using hl)
+  · split at h
+    · rename_i j b hfs
+      cases h
+      obtain ⟨k, hk, hl⟩ := findSlot_spec _ _ _ _ _ hfs
+      exact List.mem_of_getElem? (by simpa [St.side] using hl)
+    · cases h
+
+theorem blockUpdate_le {until_ : Option Int} {byp : Bool} {t : Int} {durNs : Nat} {bypass replace : Bool} {now : Int}
+    (hu : ∀ u, until_ = some u → u ≤ now + (TB.W : Int)) (ht : t ≤ now + (TB.TO : Int)) (hd : durNs ≤ TB.BD) :
+    ∀ u, (blockUpdate until_ byp t durNs bypass replace).1 = some u → u ≤ now + (TB.W : Int) := by
+  intro u hu'
+  unfold blockUpdate at hu'
+  simp only [] at hu'
+  split at hu'
+  · simp only [Option.some.injEq] at hu'
+    unfold TB.W
+    push_cast
+    omega
+  · exact hu u hu'
+
+/-- the scheduled-action branch: the due action becomes a queued event; a blocking expires at
+    most `W` after the clock -/
+theorem pickAction_ti {π : TPar} {A : Nat} {Hn : Int} {kw J : Nat} {st : St σ} (h : PI π A Hn kw J st) {s : Nat} :
+    (∀ f, pickAction st s = .error f → f.isBug = true) ∧
+    (∀ st', pickAction st s = .ok st' → PI π A Hn kw J st' ∧ SameFw st st' ∧ st'.now = st.now) := by
+  have hS := S_ge_TO π
+  unfold pickAction doScheduledAction
+  cases hfa : findAction st (st.now + (s : Int)) with
+  | none =>
+    simp only [bind, Except.bind]
+    exact ⟨fun f hf => (by cases hf; rfl), fun st' hs => (by cases hs)⟩
+  | some pr =>
+    obtain ⟨c, idx, a⟩ := pr
+    have hmem := findAction_mem hfa
+    obtain ⟨hat, hab⟩ := (h.sides c).acts a hmem
+    have hx0 : SlotI st.now ({ (st.side c) with schedAction := (st.side c).schedAction.set idx none } : Side σ) :=
+      ⟨fun a' ha' => (h.sides c).acts a' (mem_set_none ha'), (h.sides c).tims, (h.sides c).untl⟩
+    simp only []
+    cases haa : a.action with
+    | cancel m t =>
+      simp only [bind, Except.bind]
+      exact ⟨fun f hf => (by cases hf; rfl), fun st' hs => (by cases hs)⟩
+    | updateTimer du rp m =>
+      simp only [bind, Except.bind]
+      exact ⟨fun f hf => (by cases hf; rfl), fun st' hs => (by cases hs)⟩
+    | sendPadding to bypass replace machine =>
+      simp only [bind, Except.bind, pure, Except.pure]
+      refine ⟨fun f hf => (by cases hf), fun st' hs => ?_⟩
+      cases hs
+      have hp2 := (h.setSide c _ hx0).pushSim ⟨.paddingSent machine, a.time, c, true, bypass, replace⟩
+        (by show a.time ≤ (st.setSide c _).now + (π.S : Int); simp only [setSide_now]; omega)
+      refine ⟨hp2, ?_, by simp⟩
+      exact (SameFw.setSide st c _ rfl (by simp) rfl)
+    | blockOutgoing to du bypass replace machine =>
+      simp only [bind, Except.bind, pure, Except.pure]
+      refine ⟨fun f hf => (by cases hf), fun st' hs => ?_⟩
+      cases hs
+      rw [haa] at hab
+      have hdu : du * 1000 ≤ TB.BD := by
+        unfold TB.BD
+        exact Nat.mul_le_mul_right _ hab
+      have hx1 : SlotI st.now ({ ({ (st.side c) with schedAction := (st.side c).schedAction.set idx none } : Side σ) with
+          blockingUntil := (blockUpdate (st.side c).blockingUntil (st.side c).blockingBypassable a.time (du * 1000) bypass replace).1,
+          blockingBypassable := (blockUpdate (st.side c).blockingUntil (st.side c).blockingBypassable a.time (du * 1000) bypass replace).2 } : Side σ) :=
+        ⟨hx0.acts, hx0.tims, blockUpdate_le (h.sides c).untl hat hdu⟩
+      have hp2 := (h.setSide c _ hx1).pushSim
+        ⟨.blockingBegin machine, a.time, c, false,
+          (blockUpdate (st.side c).blockingUntil (st.side c).blockingBypassable a.time (du * 1000) bypass replace).2, false⟩
+        (by show a.time ≤ (st.setSide c _).now + (π.S : Int); simp only [setSide_now]; omega)
+      refine ⟨hp2, ?_, by simp⟩
+      exact (SameFw.setSide st c _ rfl (by simp) rfl)
+
+end
+
 end Mb.Sim
